@@ -170,9 +170,6 @@ func Run(t *testing.T, cfg Config, root func()) (res *Result) {
 	if cfg.SiteMask == 0 {
 		cfg.SiteMask = ^uint64(0)
 	}
-	if cfg.LivelockSteps == 0 {
-		cfg.LivelockSteps = 300_000
-	}
 	s := &Sim{cfg: cfg}
 	for i := range s.rng {
 		s.rng[i] = NewRng(cfg.Seed, i)
